@@ -123,6 +123,7 @@ def run(ctx):
     R.rule("C24-R2", "user strings (values and keys) reach the output only through the escaper", floor=2)
     R.rule("C24-R3", "deterministic dump: ordered object map, hash computed from the dump", floor=2)
     R.rule("C24-R5", "a number's printed text follows its value: every value-changing assignment of primitive resets the remembered literal text", floor=11)
+    R.rule("C24-R6", "floating-point numbers are written with enough digits to be read back exactly (max_digits10)", floor=2)
     R.rule("C24-R4", "object keys are decoded with the string decoder", floor=1)
 
     # locate the escaper: a function in json.cpp with an escaping switch
@@ -287,6 +288,39 @@ def run(ctx):
              "the value changes but `source` keeps the literal text it was parsed from, and toString()/dump()/hash() print `source`: parse(\"{\\\"N\\\":1}\")[\"N\"] = 2 still dumps and hashes as 1")
     if n5 < 11:
         raise AnalysisBroken("primitive::operator=(T): only %d arithmetic overloads found" % n5)
+
+    # ---- R6: json numbers are printed by occa::toString<T> ------------------------------------------------------------------------------
+    st = ctx.program(["src/occa/internal/utils/string.cpp"], thorough_all=False)
+    LIMITS = {("float", "digits10"): 6, ("float", "max_digits10"): 9, ("double", "digits10"): 15, ("double", "max_digits10"): 17}
+
+    def const_int(e):
+        e = strip(e)
+        while e["k"] in ("ParenExpr", "ImplicitCastExpr", "CStyleCastExpr", "CXXStaticCastExpr") and kids(e):
+            e = strip(kids(e)[0])
+        if isinstance(literal(e), int) and not isinstance(literal(e), bool):
+            return literal(e)
+        if e["k"] == "DeclRefExpr" and e.get("n", "").startswith("std::numeric_limits<"):
+            t = e["n"].split("<")[1].split(">")[0]
+            return LIMITS.get((t, e["n"].split("::")[-1]))
+        if e["k"] == "BinaryOperator" and e.get("op") in ("+", "-"):
+            a, b = const_int(kids(e)[0]), const_int(kids(e)[1])
+            if a is None or b is None:
+                return None
+            return a + b if e["op"] == "+" else a - b
+        return None
+    for T_, need in (("float", 9), ("double", 17)):
+        fs_ = [f for f in st.funcs.values() if f.q.startswith("occa::toString") and T_ in f.d["sig"].split("(")[1] and "const %s &" % T_ in f.d["sig"]]
+        if not fs_:
+            raise AnalysisBroken("occa::toString<%s> not found" % T_)
+        f = fs_[0]
+        sp = [c for c in f.walk() if is_call(c) and callee(c) == "std::setprecision"]
+        sci = any(x["k"] == "DeclRefExpr" and x.get("n") == "std::scientific" for x in f.walk())
+        p = const_int(call_args(sp[0])[0]) if sp else None
+        digits = None if p is None else (p + 1 if sci else p)
+        ok = digits is not None and digits >= need
+        R.ob("C24-R6", ok, "occa::toString<%s>" % T_, "%s significant digits written, %d needed" % (digits, need), f.site(sp[0]) if sp else f.relfile,
+             "every %s is read back as the same value" % T_ if ok else
+             "a %s needs %d significant digits to round-trip; with %s some neighbouring values share one text: parse(dump(v)) != v and distinct values get the same hash" % (T_, need, digits))
 
 
 META = {
